@@ -175,10 +175,11 @@ def cases(rng, tier):
     for _ in range(40 if tier == 'quick' else 600):
         out.append(untracked(rng))
     out.append({'kind': 'runtime', 'lines': ['t modes']})
+    out += cut_cases(rng, tier)
     out += work_cases(rng, tier) + loop_cases(rng, tier)
     for c in out:
         c['desc'] = f"{c['kind']} depth={c.get('depth')} width={c.get('width')} : " + ' ; '.join(c['lines'][:12])
-        if c['kind'] in ('work', 'loop'):
+        if c['kind'] in ('work', 'loop', 'cut'):
             c['desc'] = f"{c['kind']} " + ' '.join(f'{k}={v}' for k, v in c.items() if k not in ('lines', 'desc', 'kind'))
     return out
 
@@ -212,6 +213,7 @@ def impl(c):
     if c['kind'] == 'untracked': c['_res'] = refs_failure(c)
     if c['kind'] == 'work': c['_res'] = work_failure(c)
     if c['kind'] == 'loop': c['_res'] = loop_failure(c)
+    if c['kind'] == 'cut': c['_res'] = cut_failure(c)
     return _io(c)
 
 
@@ -226,13 +228,15 @@ def compare(c, mo, io):
         if f: diffs.append(('runtime', 'deep chain / untracked loop', f['what']))
     if c['kind'] == 'untracked' and c.get('_res'):
         diffs.append(('untracked', 'an untracked result holds no reference to another Tensor', c['_res']['what']))
+    if c['kind'] == 'cut' and c.get('_res'):
+        diffs.append(('cut', 'a tensor cut from a tracked one holds no history', c['_res']['what']))
     if c['kind'] in ('work', 'loop') and c.get('_res'):
         diffs.append((c['kind'], 'backward linear in nodes + edges' if c['kind'] == 'work' else 'nothing grows with the number of untracked steps', c['_res']['what']))
     return diffs
 
 
 def nontrivial(c):
-    return c.get('depth', 0) >= 200 or c.get('width', 0) >= 50 or c['kind'] in ('untracked', 'fresh', 'work', 'loop')
+    return c.get('depth', 0) >= 200 or c.get('width', 0) >= 50 or c['kind'] in ('untracked', 'fresh', 'work', 'loop', 'cut')
 
 
 def distribution(cases):
@@ -250,6 +254,8 @@ def distribution(cases):
                 d.setdefault('work/recorded ops at k (min, max)', [10 ** 9, 0])
                 mm = d['work/recorded ops at k (min, max)']
                 mm[0] = min(mm[0], c['_metrics']['ops'][0]); mm[1] = max(mm[1], c['_metrics']['ops'][0])
+        if c['kind'] == 'cut':
+            for k_ in (f"cut route/{c['route']}", f"cut source/{c['source']}"): d[k_] = d.get(k_, 0) + 1
         if c['kind'] == 'loop':
             d[f"loop/{c['scenario']}"] = d.get(f"loop/{c['scenario']}", 0) + 1
             for t_ in c['steps']:
@@ -784,6 +790,100 @@ def view_step(sg, name, x, t, memo={}):
     raise ValueError(name)
 
 
+
+# ---- CUTS: every route from a TRACKED, COMPUTED tensor to an untracked one -----------------------------------------------
+# (truncated back-propagation, targets taken with .detach(), values logged out of a training step).  The source is a non-leaf with
+# operands / backward function / possibly a retained gradient; whatever the route, the result holds no other Tensor, the source's
+# history dies with the source, and a loop that computes a tracked step, back-propagates and cuts keeps a constant number of
+# Tensor objects alive.
+CUT_SOURCES = ['computed', 'computed, gradient retained and filled', 'computed inside retain_grads', 'view of computed', 'multi-operand (linear layer)']
+CUT_ROUTES = ['detach', 'detach inside no_grad', 'detach-clone', 'clone inside no_grad', 'Tensor(x.data)', 'tensor(x.data.copy())', 'Tensor(x.detach())',
+              'op inside no_grad', 'slice of detach', 'detach of reshape', 'detach-detach', 'op on detach']
+
+
+def cut_cases(rng, tier):
+    out = []
+    for j, route in enumerate(CUT_ROUTES):          # every route in every run, sources in turn plus a drawn one
+        for src in {CUT_SOURCES[j % len(CUT_SOURCES)], rng.pick(CUT_SOURCES)} if tier == 'quick' else CUT_SOURCES:
+            out.append({'kind': 'cut', 'route': route, 'source': src, 'd': rng.pick([1, 3, 8]), 'n': rng.randint(12, 30), 'lines': ['t modes']})
+    return out
+
+
+def _cut(sg, route, x):
+    if route == 'detach': return x.detach()
+    if route == 'detach-clone': return x.detach().clone()
+    if route == 'detach-detach': return x.detach().detach()
+    if route == 'op on detach': return x.detach() * 1.0
+    if route == 'Tensor(x.data)': return sg.Tensor(x.data)
+    if route == 'tensor(x.data.copy())': return sg.tensor(x.data.copy())
+    if route == 'Tensor(x.detach())': return sg.Tensor(x.detach())
+    if route == 'slice of detach': return x.detach()[...]
+    if route == 'detach of reshape': return x.reshape(tuple(x.shape)).detach()
+    with sg.no_grad():
+        if route == 'detach inside no_grad': return x.detach()
+        if route == 'clone inside no_grad': return x.clone()
+        if route == 'op inside no_grad': return x * 1.0
+    raise ValueError(route)
+
+
+def cut_failure(c):
+    sg = common.impl()
+    T = sg.Tensor
+    d, route, source = c['d'], c['route'], c['source']
+    def fail(cls, what):
+        return {'key': {'cls': cls, 'route': route}, 'what': f"cut `{route}` of a tracked tensor ({source}; vectors of {d}): " + what}
+    try:
+        with np.errstate(all='ignore'), common.quiet():
+            w = T(np.linspace(0.5, 1.5, d), requires_grad=True)
+            s = T(np.linspace(1.0, 2.0, d))
+            lin = sg.nn.Linear(d, d)
+            def compute(h):
+                if source == 'multi-operand (linear layer)': return sg.tanh(lin(h.reshape((1, d))).reshape((d,)) * w + s)
+                pre = h * w + s
+                if source == 'view of computed': return sg.tanh(pre).reshape((d,))[...]
+                return sg.tanh(pre)
+            def tracked(h):
+                if source == 'computed inside retain_grads':
+                    with sg.retain_grads(): return compute(h)
+                x = compute(h)
+                if source == 'computed, gradient retained and filled': x.retain_grad()
+                return x
+            x = tracked(s)
+            x.sum().backward()
+            mid = weakref.ref(x._children[0]) if len(x._children) and isinstance(x._children[0], T) else weakref.ref(x)
+            assert x.requires_grad and x.grad_fn is not None and len(x._children)
+            r = _cut(sg, route, x)
+            if r.requires_grad or r.grad_fn is not None or len(r._children):
+                return fail('history', f'the result is tracked: requires_grad={r.requires_grad} operands kept={len(r._children)} grad_fn={r.grad_fn}')
+            hold = tensor_refs(r, T)
+            if hold:
+                return fail('holds-tensor', f"the result (requires_grad=False, grad_fn=None) holds {len(hold)} other Tensor object(s): " + ', '.join(f"{p_} -> {'the source' if q_ is x else 'a Tensor'} of shape {tuple(q_.shape)}" for p_, q_ in hold[:3]))
+            if r.data.shape != x.data.shape or not np.allclose(r.data, x.data, rtol=1e-5, atol=1e-6):     # (tensor() converts to the default dtype)
+                return fail('value', 'the result does not hold the values of the source')
+            del x, hold
+            gc.collect()
+            if mid() is not None:
+                return fail('history-alive', 'an operand of the source is still alive after the source was dropped, while only the cut result is held')
+            # truncated back-propagation: tracked step, backward, cut; Tensor objects alive after k and after 3k steps
+            h, live = r, []
+            for t in range(3 * c['n']):
+                w._grad = None
+                x = tracked(h)
+                x.sum().backward()
+                h = _cut(sg, route, x)
+                del x
+                if t + 1 in (c['n'], 3 * c['n']):
+                    gc.collect(); live.append(_snapshot(T)[0])
+            c['_metrics'] = {'live': tuple(live)}
+            if live[1] - live[0] > 2:
+                return fail('live-tensors', f"a loop of tracked step / backward / cut keeps {live[0]} Tensor objects alive after {c['n']} steps and {live[1]} after {3 * c['n']} steps: the history behind every cut stays alive")
+            if tensor_refs(h, T):
+                return fail('holds-tensor', f"the state after {3 * c['n']} steps of tracked step / backward / cut holds {len(tensor_refs(h, T))} other Tensor objects")
+    except Exception as e:
+        return fail('raises', f'raised {type(e).__name__}: {e}')
+    return None
+
+
 _SKIP_REFS = (type, types.ModuleType, types.BuiltinFunctionType, types.FrameType, types.CodeType, np.ndarray, np.generic, str, bytes, int, float, complex, bool, type(None))
 
 
@@ -1114,6 +1214,9 @@ def oracle(c):
     if c['kind'] == 'runtime':
         f = runtime_residue()
         return dict(f, case={'kind': 'runtime'}) if f else None
+    if c['kind'] == 'cut':
+        f = cut_failure(c)
+        return dict(f, case={k: v for k, v in c.items() if not k.startswith('_') and k != 'desc'}) if f else None
     if c['kind'] in ('work', 'loop'):
         f = work_failure(c) if c['kind'] == 'work' else loop_failure(c)
         if f and c['kind'] == 'loop' and c.get('events'):
